@@ -153,10 +153,18 @@ fn for_each_state<K: Kind>(f: fn(SD<K>))
 where
     (): SortedDequeMarker<K::Item, Key = K::Key>,
 {
+    for_each_state_in::<K>(0, N, f)
+}
+
+/// ... restricted to lo..=hi physical items before consumption (to split a slow harness over several CBMC runs)
+fn for_each_state_in<K: Kind>(lo: usize, hi: usize, f: fn(SD<K>))
+where
+    (): SortedDequeMarker<K::Item, Key = K::Key>,
+{
     let keys: [u8; N] = kani::any();
     let vals: [Option<u8>; N] = kani::any();
-    let mut len = 0;
-    while len <= N {
+    let mut len = lo;
+    while len <= hi {
         let mut consumed = 0;
         while consumed <= len / 2 {
             if consumed < len || consumed == 0 {
@@ -376,10 +384,34 @@ macro_rules! kinds {
     };
 }
 kinds!(h_find, c16_pairs_find, c16_whole_find);
-kinds!(h_remove, c16_pairs_remove, c16_whole_remove);
-kinds!(h_pop_first, c16_pairs_pop_first, c16_whole_pop_first);
-kinds!(h_pop_last, c16_pairs_pop_last, c16_whole_pop_last);
-kinds!(h_iter_clear, c16_pairs_iter_clear, c16_whole_iter_clear);
+macro_rules! kinds_split {
+    ($h:ident, $pa:ident, $pb:ident, $wa:ident, $wb:ident) => {
+        #[kani::proof]
+        #[kani::unwind(@@U@@)]
+        fn $pa() {
+            for_each_state_in::<Pairs>(0, N - 1, $h::<Pairs>)
+        }
+        #[kani::proof]
+        #[kani::unwind(@@U@@)]
+        fn $pb() {
+            for_each_state_in::<Pairs>(N, N, $h::<Pairs>)
+        }
+        #[kani::proof]
+        #[kani::unwind(@@U@@)]
+        fn $wa() {
+            for_each_state_in::<Wholes>(0, N - 1, $h::<Wholes>)
+        }
+        #[kani::proof]
+        #[kani::unwind(@@U@@)]
+        fn $wb() {
+            for_each_state_in::<Wholes>(N, N, $h::<Wholes>)
+        }
+    };
+}
+kinds_split!(h_remove, c16_pairs_remove_a, c16_pairs_remove_b, c16_whole_remove_a, c16_whole_remove_b);
+kinds_split!(h_pop_first, c16_pairs_pop_first_a, c16_pairs_pop_first_b, c16_whole_pop_first_a, c16_whole_pop_first_b);
+kinds_split!(h_pop_last, c16_pairs_pop_last_a, c16_pairs_pop_last_b, c16_whole_pop_last_a, c16_whole_pop_last_b);
+kinds_split!(h_iter_clear, c16_pairs_iter_clear_a, c16_pairs_iter_clear_b, c16_whole_iter_clear_a, c16_whole_iter_clear_b);
 kinds!(h_push_ok, c16_pairs_push_ok, c16_whole_push_ok);
 
 #[kani::proof]
